@@ -142,7 +142,7 @@ class _ShapeList(list):
         if radunit == 'arcsec':
             # arcseconds are allowed for all but image coordinates
             if coordsys.lower() not in ('image',):
-                radunitstr = '"'
+                radunitstr = 'arcsec'
             else:
                 raise ValueError('Radius unit arcsec not valid for '
                                  f'coordsys {coordsys}')
